@@ -589,11 +589,17 @@ class _OnPaddingField:
         return out
 
 
+def _same_section(a, b):
+    if smt():
+        return a.ref == b.ref
+    return a is getattr(b, "_orig", b)
+
+
 def sections_content_same(new, old):
     """No attribute committed, no doc changed: the lists and docs of all sections are what they were."""
     ns_, os_ = SECS(new), SECS(old)
     return AND(len(ns_) == len(os_), *[AND(SEQ_SAME(a._fields, b._fields), SEQ_SAME(a._constants, b._constants),
-                                          EQ(a._doc, b._doc), SAME(a.ref if smt() else a, b.ref if smt() else b))
+                                          EQ(a._doc, b._doc), _same_section(a, b))
                                       for a, b in zip(ns_, os_)])
 
 
@@ -615,8 +621,7 @@ class _OnMarker:
     def post(s):
         new_secs, old_secs = SECS(s.self), SECS(s.old)
         return {"two-sections": len(new_secs) == 2,
-                "request-section-kept": AND(SAME(new_secs[0].ref if smt() else new_secs[0],
-                                                 old_secs[0].ref if smt() else old_secs[0]),
+                "request-section-kept": AND(_same_section(new_secs[0], old_secs[0]),
                                             dsb_unchanged(new_secs[0], old_secs[0])),
                 "response-section-empty": dsb_is_empty(new_secs[-1]),
                 "still-nothing-pending": NO_PENDING(s.self),
@@ -1545,6 +1550,250 @@ class _DrvEndOfInput:
         return out
 
 
+# ------------------------------------------------------------------------------------------------ bounded native checks
+# Whole texts on the real reader (NOT counted as obligations; reported under coverage.extra_checks): the oracle is the
+# documented rule applied to the line descriptors the text was generated from.  Also replays F1/F2/F3 concretely and
+# compares the call order of the assumed traversal (driver) with what the vendored parsimonious really does.
+_LINE_KINDS = [
+    ("blank", "", None), ("comment", "# c%d", None), ("field", "uint8 f%d", None), ("field+c", "uint8 f%d # fc%d", None),
+    ("const", "uint8 K%d = %d", None), ("const+c", "uint8 K%d = %d  # kc%d", None), ("pad", "void8", None),
+    ("pad+c", "void8 #pc%d", None), ("directive", "@assert true", None),
+]
+
+
+def _oracle(lines):
+    """Expected (fields, constants, header doc) by the documented rule; lines = [(kind, text)]."""
+    fields, consts = [], []
+    header, hdr_open, open_ = [], True, None
+    for kind, text in lines:
+        comment = None
+        if "#" in text:
+            c = text[text.index("#"):]
+            comment = c[2:] if c.startswith("# ") else c[1:]
+        base = kind.split("+")[0]
+        if base == "blank":
+            open_, hdr_open = None, False
+        elif base == "comment":
+            if open_ is not None:
+                open_[1].append(comment)
+            elif hdr_open:
+                header.append(comment)
+        elif base in ("field", "pad", "const"):
+            stmt = text.split("#")[0].strip()
+            norm = {"field": "saturated " + stmt, "pad": stmt, "const": "saturated " + " ".join(stmt.split())}[base]
+            open_ = (norm, [comment] if comment is not None else [])
+            (consts if base == "const" else fields).append(open_)
+            hdr_open = False
+        else:
+            open_, hdr_open = None, False
+    fmt = lambda xs: [(n, "\n".join(d)) for n, d in xs]
+    return fmt(fields), fmt(consts), "\n".join(header)
+
+
+def _read_text(text, deps=(), name="ns/A.1.0.dsdl"):
+    import pathlib
+    import shutil
+    import tempfile
+    import pydsdl
+    from pydsdl._dsdl_definition import DSDLDefinition
+
+    d = pathlib.Path(tempfile.mkdtemp(prefix="c03-native-"))
+    try:
+        p = d / name
+        p.parent.mkdir(parents=True, exist_ok=True)
+        p.write_bytes(text.encode())
+        lk = []
+        for n, t in deps:
+            q = d / n
+            q.parent.mkdir(parents=True, exist_ok=True)
+            q.write_bytes(t.encode())
+            lk.append(DSDLDefinition(q, d / n.split("/")[0]))
+        prints = []
+        try:
+            t = DSDLDefinition(p, d / name.split("/")[0]).read(lk, [], lambda ln, tx: prints.append((ln, tx)), True)
+        except pydsdl.FrontendError as e:
+            return {"error": type(e).__name__, "line": e.line, "path": str(e.path.relative_to(d)) if e.path else None,
+                    "prints": prints}
+        return {"fields": [(str(a), a.doc) for a in t.fields], "constants": [(str(a), a.doc) for a in t.constants],
+                "doc": t.doc, "prints": prints}
+    finally:
+        shutil.rmtree(d, ignore_errors=True)
+
+
+def _traversal_log(text):
+    """Names of the state-touching visitors in the order the real parsimonious traversal calls them."""
+    from pydsdl import _parser
+
+    names = ["visit_line", "visit_end_of_line", "visit_comment", "visit_identifier", "visit_statement_field",
+             "visit_statement_constant", "visit_statement_padding_field", "visit_statement_directive_with_expression",
+             "visit_statement_directive_without_expression", "visit_statement_service_response_marker"]
+    log = []
+
+    class _Null(_parser.StatementStreamProcessor):
+        def __getattribute__(self, n):
+            if n.startswith("on_"):
+                return lambda *a, **k: None
+            return object.__getattribute__(self, n)
+
+        def resolve_top_level_identifier(self, name):
+            from pydsdl import _expression
+            return _expression.Boolean(True)
+
+    def mk(n):
+        orig = getattr(_parser._ParseTreeProcessor, n)
+
+        def f(self, node, children):
+            log.append(n)
+            return orig(self, node, children)
+        return f
+
+    cls = type("_Logged", (_parser._ParseTreeProcessor,), {n: mk(n) for n in names})
+    cls(_Null(), strict=False).visit(_parser._get_grammar().parse(text))
+    return log
+
+
+def _driver_log(lines, final_eol):
+    """The same order according to the assumed traversal (specs/drivers/c03_driver.py) run on a logging stand-in."""
+    from types import SimpleNamespace as N
+    from .drivers import c03_driver as D
+
+    log = []
+
+    class _Pr:
+        def __getattr__(self, n):
+            if n == "visit_definition":
+                raise AttributeError(n)
+            if n == "generic_visit":
+                return lambda node, ch: None
+
+            def f(node, children):
+                log.append(n)
+                return getattr(node, "text", None)
+            return f
+
+    pr, g = _Pr(), [None] * 11
+    rows = list(lines) + ([("blank", "")] if final_eol else [])
+    for i, (kind, text) in enumerate(rows):
+        base, hc = kind.split("+")[0], "#" in text
+        ln, cn = N(text=text), N(text=text[text.index("#"):] if hc else "")
+        if base == "blank":
+            D.line_blank(pr, ln, *g)
+        elif base == "comment":
+            D.line_comment_only(pr, cn, ln, *g)
+        elif base == "field":
+            D.line_field(pr, False, None, None, N(text="f"), None, hc, cn, ln, *g)
+        elif base == "const":
+            D.line_constant(pr, False, None, None, N(text="K"), False, None, None, None, hc, cn, ln, *g)
+        elif base == "pad":
+            D.line_padding(pr, None, None, hc, cn, ln, *g)
+        elif base == "directive":
+            if len(text.split("#")[0].split()) > 1:
+                ident = text.split()[1] in ("x",)
+                D.line_directive_with_expression(pr, "n", N(text="n"), ident, N(text="x"), None, None, hc, cn, ln, *g)
+            else:
+                D.line_directive_without_expression(pr, "n", N(text="n"), None, hc, cn, ln, *g)
+        if i + 1 < len(rows):
+            D.end_of_line(pr, None, *g)
+    D.end_of_input(pr, None, *g)
+    return log
+
+
+def _gen_texts(max_lines):
+    import itertools
+
+    for n in range(0, max_lines + 1):
+        for combo in itertools.product(range(len(_LINE_KINDS)), repeat=n):
+            lines = []
+            for i, k in enumerate(combo):
+                kind, tpl, _ = _LINE_KINDS[k]
+                cnt = tpl.count("%d")
+                lines.append((kind, tpl % tuple([i] * cnt) if cnt else tpl))
+            for prefix in ([], [("comment", "# hdr")]):
+                yield prefix + [("directive", "@sealed")] + lines
+
+
+def extra_whole_text(eng, tier, seed):
+    max_lines = 3 if tier != "thorough" else 4
+    checked = mism_f1 = trav = 0
+    violations = []
+    for lines in _gen_texts(max_lines):
+        exp = _oracle(lines)
+        for eol in ("\n", "\r\n"):
+            for final in (True, False):
+                if eol == "\r\n" and len(lines) > 3:
+                    continue
+                text = eol.join(t for _, t in lines) + (eol if final else "")
+                got = _read_text(text)
+                checked += 1
+                ok = "error" not in got and (got["fields"], got["constants"], got["doc"]) == exp
+                if not ok:
+                    last_open = (not final) and lines[-1][0].split("+")[0] in ("field", "const", "pad", "comment")
+                    name = "native/last-line-without-end-of-line" if last_open else "native/whole-text-mirror"
+                    if last_open:
+                        mism_f1 += 1
+                    if not any(v["name"] == name for v in violations):
+                        violations.append({"name": name, "detail": "model %r, expected by the documented rule %r" % (got, exp),
+                                           "concrete": {"text": text}})
+                if eol == "\n" and len(lines) <= 4:
+                    trav += 1
+                    a, b = _traversal_log(text), _driver_log(lines, final)
+                    if a != b and not any(v["name"] == "native/assumed-traversal-order" for v in violations):
+                        violations.append({"name": "native/assumed-traversal-order", "concrete": {"text": text},
+                                           "detail": "parsimonious calls %r, the driver assumes %r" % (a, b)})
+    return {"check": "whole texts on the real reader vs the documented rule (bounded, native)", "texts": checked,
+            "bound": "all texts of '@sealed' (optionally after a header comment) + <= %d lines over %d line kinds x LF/CRLF x "
+                     "with/without final end-of-line" % (max_lines, len(_LINE_KINDS)),
+            "mismatches_last_line_without_eol": mism_f1, "traversal_orders_compared": trav, "violations": violations}
+
+
+def extra_whole_text_locations(eng, tier, seed):
+    """C17 natively: error line of an invalid constant placed on line k with what follows varied; @print line; @print
+    in a dependency."""
+    violations, checked = [], 0
+    follow = ["", "\n", "\n# c1\n# c2\n\n@sealed\n", "\nuint8 b\n@sealed\n", " # c\n\n\n@sealed\n", "\r\n\r\n@sealed\r\n"]
+    for before in ["", "\n", "# h\n\n", "uint8 a\n# doc of a\n", "\r\n\r\n"]:
+        for f in follow:
+            text = before + "uint8 X = 1000" + f
+            want = before.count("\n") + 1
+            got = _read_text(text)
+            checked += 1
+            if got.get("error") != "InvalidConstantValueError":
+                continue  # accepted (F1, C03) or rejected for another reason: not a location question
+            if got.get("line") != want and not violations:
+                violations.append({"name": "native/error-line-is-statement-line", "concrete": {"text": text},
+                                   "detail": "statement on line %d, reported line %r (%s)" % (want, got.get("line"), got["error"])})
+    for before in ["", "\n\n", "# c\n", "uint8 a # c\n", "\r\n"]:
+        text = before + "@print 1 + 1\n@sealed\n"
+        got = _read_text(text)
+        checked += 1
+        if got.get("prints") != [(before.count("\n") + 1, "2")]:
+            violations.append({"name": "native/print-line", "concrete": {"text": text}, "detail": repr(got)})
+    # F3: @print in a dependency must be attributed to the dependency
+    import pathlib
+    import shutil
+    import tempfile
+    import pydsdl
+
+    d = pathlib.Path(tempfile.mkdtemp(prefix="c03-native-"))
+    try:
+        (d / "ns").mkdir()
+        (d / "ns" / "A.1.0.dsdl").write_text("ns.B.1.0 b\n@sealed\n")
+        (d / "ns" / "B.1.0.dsdl").write_text("\n@print 7\n@sealed\n")
+        out = []
+        pydsdl.read_namespace(d / "ns", [], lambda path, line, text: out.append((pathlib.Path(path).name, line, text)))
+        checked += 1
+        wrong = [o for o in out if o[0] != "B.1.0.dsdl"]
+        if wrong or not out:
+            violations.append({"name": "native/print-in-dependency-carries-dependency-path",
+                               "concrete": {"files": {"ns/A.1.0.dsdl": "ns.B.1.0 b\n@sealed\n", "ns/B.1.0.dsdl": "\n@print 7\n@sealed\n"}},
+                               "detail": "handler calls: %r" % (out,)})
+    finally:
+        shutil.rmtree(d, ignore_errors=True)
+    return {"check": "error / @print locations on whole texts (bounded, native)", "texts": checked, "violations": violations}
+
+
+EXTRA_CHECKS = [extra_whole_text]
+
 # ------------------------------------------------------------------------------------------------ native harness
 from pyvc.native import NativeSuite
 
@@ -1553,3 +1802,142 @@ LEVEL = "proof"
 NOT_COVERED = []
 EXPLANATION = ""
 ASSUMPTIONS = []
+
+
+class _Rec:
+    def __init__(self):
+        self.calls = []
+
+    def __call__(self, *a):
+        self.calls.append(tuple(a))
+
+
+def native_snapshot(b):
+    return _View(_structs=[_View(_fields=list(x._fields), _constants=list(x._constants), _doc=x._doc, _is_union=x._is_union,
+                                 _serialization_mode=x._serialization_mode, _orig=x,
+                                 _bit_length_computed_at_least_once=x._bit_length_computed_at_least_once)
+                           for x in b._structs],
+                 _element_callback=b._element_callback, _is_deprecated=b._is_deprecated,
+                 _print_output_handler=_View(calls=list(b._print_output_handler.calls)))
+
+
+def _mk_native_type(k):
+    from pydsdl import _serializable as S
+
+    sat = S.PrimitiveType.CastMode.SATURATED
+    return {"u8": lambda: S.UnsignedIntegerType(8, sat), "f32": lambda: S.FloatType(32, sat), "bool": S.BooleanType,
+            "void": lambda: S.VoidType(8), "arr": lambda: S.FixedLengthArrayType(S.UnsignedIntegerType(8, sat), 3)}[k]()
+
+
+def _mk_native_value(v):
+    from pydsdl import _expression as X
+
+    if isinstance(v, bool):
+        return X.Boolean(v)
+    if isinstance(v, int):
+        return X.Rational(v)
+    if isinstance(v, str):
+        return X.String(v)
+    return X.Set([X.Rational(1)])
+
+
+def _apply_native(b, op):
+    k = op[0]
+    if k == "field":
+        b.on_field(_mk_native_type(op[1]), op[2])
+    elif k == "const":
+        b.on_constant(_mk_native_type(op[1]), op[2], _mk_native_value(op[3]))
+    elif k == "pad":
+        b.on_padding_field(_mk_native_type("void"))
+    elif k == "acomment":
+        b.on_attribute_comment(op[1])
+    elif k == "hcomment":
+        b.on_header_comment(op[1])
+    elif k == "marker":
+        b.on_service_response_marker()
+    elif k == "directive":
+        b.on_directive(op[1], op[2], None if op[3] is None else _mk_native_value(op[3]))
+    elif k == "offset":
+        b._structs[-1].offset  # sets the 'computed' flag
+
+
+def _gen_op(rng, kinds):
+    k = rng.choice(kinds)
+    if k == "field":
+        return ["field", rng.choice(["u8", "f32", "bool", "arr"]), rng.choice(["a", "b", "x_1", "9bad", "", "uint8"])]
+    if k == "const":
+        return ["const", rng.choice(["u8", "f32", "bool", "arr"]), rng.choice(["A", "B", "bad name"]),
+                rng.choice([1, 1000, True, "a", "ab", None])]
+    if k == "acomment":
+        return ["acomment", rng.choice(["", "doc", "two\nlines"])]
+    if k == "hcomment":
+        return ["hcomment", rng.choice(["", "header"])]
+    if k == "directive":
+        n = rng.choice(DIRECTIVE_NAMES + ["bogus"])
+        return ["directive", rng.randrange(1, 9), n, rng.choice([None, None, True, False, 64, "s"])]
+    return [k]
+
+
+def _gen_builder_case(op_kinds):
+    def gen(rng, i):
+        pre = [_gen_op(rng, ["field", "const", "pad", "acomment", "hcomment", "marker", "directive", "offset", "acomment"])
+               for _ in range(rng.randrange(0, 5))]
+        return {"pre": pre, "op": _gen_op(rng, op_kinds)}
+    return gen
+
+
+def _build_builder_case(desc):
+    import pydsdl
+    from pydsdl._data_type_builder import DataTypeBuilder
+    from pydsdl._data_schema_builder import DataSchemaBuilder
+
+    b = DataTypeBuilder.__new__(DataTypeBuilder)
+    b._structs = [DataSchemaBuilder()]
+    b._element_callback = None
+    b._is_deprecated = False
+    b._print_output_handler = _Rec()
+    import pathlib
+
+    b._definition = _View(file_path=pathlib.Path("ns/A.1.0.dsdl"))
+    for op in desc["pre"]:
+        try:
+            _apply_native(b, op)
+        except pydsdl.FrontendError:
+            pass
+        except AssertionError:
+            raise ValueError("unreachable builder state")
+    op = desc["op"]
+    if op[0] in ("marker", "directive") and b._element_callback is not None:
+        b.on_attribute_comment("")  # the protocol precondition of these calls: nothing pending
+    ns = {"self": b, "old": native_snapshot(b)}
+    if op[0] == "field":
+        ns.update(field_type=_mk_native_type(op[1]), name=op[2])
+        return (lambda: b.on_field(ns["field_type"], ns["name"])), ns
+    if op[0] == "const":
+        ns.update(constant_type=_mk_native_type(op[1]), name=op[2], value=_mk_native_value(op[3]))
+        return (lambda: b.on_constant(ns["constant_type"], ns["name"], ns["value"])), ns
+    if op[0] == "pad":
+        ns.update(padding_field_type=_mk_native_type("void"))
+        return (lambda: b.on_padding_field(ns["padding_field_type"])), ns
+    if op[0] == "acomment":
+        ns.update(comment=op[1])
+        return (lambda: b.on_attribute_comment(op[1])), ns
+    if op[0] == "hcomment":
+        ns.update(comment=op[1])
+        return (lambda: b.on_header_comment(op[1])), ns
+    if op[0] == "marker":
+        return (lambda: b.on_service_response_marker()), ns
+    if op[0] == "directive":
+        ns.update(line_number=op[1], directive_name=op[2], associated_expression_value=None if op[3] is None else _mk_native_value(op[3]))
+        return (lambda: b.on_directive(ns["line_number"], ns["directive_name"], ns["associated_expression_value"])), ns
+    raise ValueError(op)
+
+
+NATIVE.add(DTB + ".on_field", _gen_builder_case(["field"]), _build_builder_case)
+NATIVE.add(DTB + ".on_constant", _gen_builder_case(["const"]), _build_builder_case)
+NATIVE.add(DTB + ".on_padding_field", _gen_builder_case(["pad"]), _build_builder_case)
+NATIVE.add(DTB + ".on_attribute_comment", _gen_builder_case(["acomment"]), _build_builder_case)
+NATIVE.add(DTB + ".on_header_comment", _gen_builder_case(["hcomment"]), _build_builder_case)
+NATIVE.add(DTB + ".on_service_response_marker", _gen_builder_case(["marker"]), _build_builder_case)
+NATIVE.add(DTB + ".on_directive", _gen_builder_case(["directive"]), _build_builder_case)
+NATIVE_BUDGET = {"quick": 300, "thorough": 3000}
